@@ -33,6 +33,8 @@ func init() {
 			{ID: "R05g", Floor: 4, Doc: "the deferred writer creates its file truncating and builds the writer from the caller's inputs (= R20b): in CARv1 mode the file is exactly the payload", Run: ruleR20b},
 			{ID: "R05f", Floor: 1, Doc: "a resumed session's index holds every section already in the file (= R12c)", Run: ruleR12c},
 			{ID: "R05h", Floor: 8, Doc: "sections are framed as uvarint(len) | cid | data, each part by its own checked write (= R01b)", Run: ruleR01b},
+			{ID: "R05i", Floor: 10, Doc: "no new dropped error on the way to a finalized file (= R16h)", Run: ruleR16h},
+			{ID: "R05j", Floor: 8, Doc: "format constants are the specified ones: the 11-byte CARv2 pragma, PragmaSize 11, HeaderSize 40, CharacteristicsSize 16, the no-index codec 0x300000, and the default parser limits (32 MiB header, 8 MiB section, 2 KiB index CID); layout arithmetic everywhere is written in terms of them", Run: ruleR05j},
 		},
 	})
 }
@@ -629,5 +631,67 @@ func ruleR05c(c *Ctx, r *Report) {
 			}
 		}
 		r.Check(bad == "", key, c.Pos(fn.Pos()), "data writer starts at header.DataOffset, at 0 in CARv1 mode", bad)
+	}
+}
+
+func ruleR05j(c *Ctx, r *Report) {
+	for _, k := range []struct {
+		pkg, name string
+		want      int64
+	}{
+		{modV2, "PragmaSize", 11}, {modV2, "HeaderSize", 40}, {modV2, "CharacteristicsSize", 16},
+		{modV2, "DefaultMaxIndexCidSize", 2 << 10}, {modV2, "DefaultMaxAllowedHeaderSize", 32 << 20}, {modV2, "DefaultMaxAllowedSectionSize", 8 << 20},
+		{pkgV1, "DefaultMaxAllowedHeaderSize", 32 << 20}, {pkgV1, "DefaultMaxAllowedSectionSize", 8 << 20},
+		{pkgIndex, "CarIndexNone", 0x300000},
+	} {
+		key := "format-constant@" + shortPkg(k.pkg) + "." + k.name
+		p := c.Pkgs[k.pkg]
+		if p == nil {
+			r.InfraFail("package %s not loaded", k.pkg)
+			continue
+		}
+		cst, ok := p.Types.Scope().Lookup(k.name).(*types.Const)
+		if !ok {
+			r.Undec(key, "-", "constant not found")
+			continue
+		}
+		v, exact := constant.Int64Val(constant.ToInt(cst.Val()))
+		r.Check(exact && v == k.want, key, c.Pos(cst.Pos()), fmt.Sprintf("= %d", k.want), fmt.Sprintf("is %s, the format (or the documented default) says %d", cst.Val().String(), k.want))
+	}
+	// the pragma bytes
+	key := "format-constant@v2.Pragma"
+	want := []int64{0x0a, 0xa1, 0x67, 0x76, 0x65, 0x72, 0x73, 0x69, 0x6f, 0x6e, 0x02}
+	p := c.Pkgs[modV2]
+	found := false
+	for _, f := range p.Syntax {
+		for _, d := range f.Decls {
+			gd, ok := d.(*ast.GenDecl)
+			if !ok {
+				continue
+			}
+			for _, sp := range gd.Specs {
+				vs, ok := sp.(*ast.ValueSpec)
+				if !ok || len(vs.Names) != 1 || vs.Names[0].Name != "Pragma" || len(vs.Values) != 1 {
+					continue
+				}
+				cl, ok := vs.Values[0].(*ast.CompositeLit)
+				if !ok {
+					continue
+				}
+				found = true
+				var got []int64
+				for _, e := range cl.Elts {
+					if tv, ok := p.TypesInfo.Types[e]; ok && tv.Value != nil {
+						if v, exact := constant.Int64Val(constant.ToInt(tv.Value)); exact {
+							got = append(got, v)
+						}
+					}
+				}
+				r.Check(fmt.Sprint(got) == fmt.Sprint(want), key, c.Pos(vs.Pos()), "0a a1 67 76 65 72 73 69 6f 6e 02", fmt.Sprintf("pragma bytes are %x", got))
+			}
+		}
+	}
+	if !found {
+		r.Undec(key, "-", "var Pragma = []byte{...} not found")
 	}
 }
